@@ -116,6 +116,9 @@ def cases(tier):
     # primitives listed from diffuse to tight (nothing orders the primitives of a shell), concrete exponents
     out.append(Block(la=0, lb=1, Ka=2, Kb=2, Ma=1, Mb=1, nq=1, exps=[["3/10", "5"], ["2/5", "11/4"]]))
     out.append(Block(la=1, lb=0, Ka=3, Kb=1, Ma=1, Mb=1, nq=1, exps=[["1/50", "3/2", "7"], ["13/10"]]))
+    # equal l and >= 2 columns on both sides (two different generalized shells of one type)
+    for l in (0, 1):
+        out.append(Block(la=l, lb=l, Ka=1, Kb=2, Ma=2, Mb=2, nq=1))
     out.append(Public(ls=[0, 1], types="cc", Ks=[2, 1], Ms=[1, 2], nq=2))
     out.append(Public(ls=[1, 0], types="cc", Ks=[1, 1], Ms=[1, 1], nq=1))
     out.append(Public(ls=[2, 1], types="sc", Ks=[1, 1], Ms=[1, 1], nq=1))
